@@ -58,7 +58,7 @@ fn any_submission(n: u8) -> impl Strategy<Value = SignOp> {
         prop_oneof![3 => Just(Inlet::Http), 1 => Just(Inlet::Dmq)],
         prop_oneof![3 => Just(Label::Own), 5 => any::<u16>().prop_map(Label::Other), 1 => Just(Label::Unregistered)],
         prop_oneof![3 => Just(Source::Own), 4 => any::<u16>().prop_map(Source::CopyOf)],
-        prop_oneof![4 => Just(IdxList::Matching), 1 => Just(IdxList::Truncated), 1 => Just(IdxList::Extended)],
+        prop_oneof![4 => Just(IdxList::Matching), 1 => Just(IdxList::Truncated), 1 => Just(IdxList::Extended), 1 => Just(IdxList::Restricted)],
     )
         .prop_map(|(mask, target, flavour, inlet, label, source, idx)| SignOp { mask, target, flavour, inlet, label, source, idx })
 }
@@ -151,6 +151,27 @@ fn product() -> Vec<Case> {
                 }
             }
         }
+    }
+    // the same parties submit twice: first a signature restricted to half of its indices (below the quorum together),
+    // then their full signatures (insert-or-replace: the NUMBER of stored signatures stays the same, their content
+    // reaches the quorum): the next cycle must certify
+    // (the quorum is swept: for some k the halves stay below it while the full signatures reach it)
+    for (k, n) in (50u64..=95).step_by(5).flat_map(|k| [(k, 3u8), (k, 5u8)]) {
+        let cfg = SutConfig { k, m: 100, phi_pct: 65, n_signers: n, cardano_database: false, cardano_transactions: false, cardano_stake_distribution: false };
+        let full = (1u16 << n) - 1;
+        let sub = |idx: IdxList| Op::Sign(SignOp { mask: full, target: Target::Current(0), flavour: Flavour::Valid, inlet: Inlet::Http, label: Label::Own, source: Source::Own, idx });
+        let ops = vec![
+            Op::Tick(1),
+            Op::Register { mask: full, keygen: 0, when: RegEpoch::Current },
+            Op::EpochUp(1),
+            Op::Tick(3),
+            sub(IdxList::Restricted),
+            Op::Tick(1),
+            sub(IdxList::Matching),
+            Op::Tick(1),
+            Op::Tick(1),
+        ];
+        v.push(Case { cfg, honest_mask: 0, ops });
     }
     v
 }
